@@ -9,7 +9,7 @@ import unicodedata
 import z3
 from . import model, pattern
 from .util import *
-from .util import DOMAINS
+from .util import DOMAINS, set_domain
 from .. import mir as MIR
 from ..interp import strip_lifetimes
 
@@ -46,7 +46,7 @@ def decode_at(bs, i):
         e = z3.ZeroExt(24, b)
         d = DOMAINS.get(b.get_id())
         if d is not None:
-            DOMAINS[e.get_id()] = d
+            set_domain(e, d)
         return Sc(e, 32), 1
     if b < 0x80:
         return Sc(b, 32), 1
